@@ -37,7 +37,7 @@ for d in "$MD"/$PAT; do
       results="$results\"C$id\":{\"rc\":$rc,\"sig\":\"$sig\"},"
     done
   fi
-  cd "$WT"; git checkout -q -- .
+  cd "$WT"; git reset -q --hard
   echo "{\"mutant\":\"$name\",\"property\":\"$prop\",\"applies\":$applies,\"suite_passes\":$suite,\"demo_fails_with\":$demo_fails,\"demo_passes_without\":$demo_passes,\"checks\":{${results%,}}}" >> "$OUT"
   echo "$name done"
 done
